@@ -76,6 +76,27 @@ fn check_text(text: &str) -> Result<(), String> {
         let got: Vec<&str> = sp.lines().collect();
         let wants: Vec<&str> = want.iter().map(|&(x, y)| &text[x..y]).collect();
         if got != wants { return Err(format!("Span({},{}).lines() in {:?} = {:?}, expected {:?}", a, b, text, got, wants)); }
+        // Span::get: a sub-span exists exactly for ordered boundary ranges inside the span, and is that part of it
+        {
+            let inner = &text[a..b]; let m = inner.len();
+            let same = |what: String, got: Option<Span>, want: Option<&str>, x: usize| -> Result<(), String> {
+                match (got, want) {
+                    (None, None) => Ok(()),
+                    (Some(g), Some(w)) if g.as_str() == w && g.start() == a + x && g.end() == a + x + w.len() => Ok(()),
+                    (g, w) => Err(format!("Span({},{}).get({}) in {:?} = {:?}, the span's text gives {:?}", a, b, what, text, g.map(|g| (g.start(), g.end())), w)),
+                }
+            };
+            for x in 0..=m + 1 {
+                same(format!("{}..", x), sp.get(x..), inner.get(x..), x)?;
+                same(format!("..{}", x), sp.get(..x), inner.get(..x), 0)?;
+                same(format!("..={}", x), sp.get(..=x), inner.get(..=x), 0)?;
+                for y in 0..=m + 1 {
+                    same(format!("{}..{}", x, y), sp.get(x..y), inner.get(x..y), x)?;
+                    same(format!("{}..={}", x, y), sp.get(x..=y), inner.get(x..=y), x)?;
+                }
+            }
+            same("..".to_string(), sp.get(..), inner.get(..), 0)?;
+        }
         if sp.start_pos().line_col() != lc(text, a) || sp.end_pos().line_col() != lc(text, b) { return Err(format!("Span({},{}) start/end line_col in {:?}", a, b, text)); }
         // pairs: through the builder (index over the whole input) ...
         let pairs = PairsBuilder::new(text).rule_with(Rule::a, a, b, |i| i.rule(Rule::b, a, b)).build();
@@ -129,5 +150,5 @@ fn main() {
         n += 1;
         if let Err(e) = guarded(&t) { println!("WITNESS {{\"text\":\"{}\",\"what\":\"{}\"}}", esc(&t), esc(&e)); return; }
     }
-    println!("NO-WITNESS {} texts of up to {} characters over {{a,\\n,\\r,é,€,\\t}}: positions, spans, pairs (builder, into_inner, flatten, parse) and errors agree with the definition at every offset and offset pair", n, maxlen);
+    println!("NO-WITNESS {} texts of up to {} characters over {{a,\\n,\\r,é,€,\\t}}: positions, spans (incl. Span::get for every range shape), pairs (builder, into_inner, flatten, parse) and errors agree with the definition at every offset and offset pair", n, maxlen);
 }
